@@ -36,8 +36,9 @@ type identInfo struct {
 	Owner string `json:"owner"` // method: receiver type; field: struct type
 	Name  string `json:"name"`
 	Shape string `json:"shape"`
-	Index int    `json:"index"` // field: position in the struct
-	Ptr   bool   `json:"ptr,omitempty"` // method: pointer receiver
+	Index int    `json:"index"`          // field: position in the struct
+	Ptr   bool   `json:"ptr,omitempty"`  // method: pointer receiver
+	Init  string `json:"init,omitempty"` // var: its initialiser as written (tie-break between same-typed variables)
 }
 
 func (i identInfo) key() string {
@@ -184,7 +185,7 @@ func inventory(pk *packages.Package, canon func(*types.TypeName) string) []ident
 			}
 		case *types.Var:
 			if renamable(o) {
-				add(identEntry{identInfo{Kind: "var", Name: o.Name(), Shape: shapeOf(o.Type(), canon, 0)}, o})
+				add(identEntry{identInfo{Kind: "var", Name: o.Name(), Shape: shapeOf(o.Type(), canon, 0), Init: varInit(pk, o)}, o})
 			}
 		case *types.Func:
 			if renamable(o) {
@@ -193,6 +194,30 @@ func inventory(pk *packages.Package, canon func(*types.TypeName) string) []ident
 		}
 	}
 	return out
+}
+
+// varInit returns the initialiser of a package-level variable as written.
+func varInit(pk *packages.Package, o *types.Var) string {
+	for _, f := range pk.Syntax {
+		for _, d := range f.Decls {
+			gd, ok := d.(*ast.GenDecl)
+			if !ok {
+				continue
+			}
+			for _, sp := range gd.Specs {
+				vs, ok := sp.(*ast.ValueSpec)
+				if !ok {
+					continue
+				}
+				for i, n := range vs.Names {
+					if pk.TypesInfo.Defs[n] == o && len(vs.Values) == len(vs.Names) {
+						return types.ExprString(vs.Values[i])
+					}
+				}
+			}
+		}
+	}
+	return ""
 }
 
 // dumpInventory writes the reference inventory of the loaded program.
@@ -294,6 +319,16 @@ func detectRenamings(pkgs []*packages.Package) (map[types.Object]string, []Renam
 						continue
 					}
 					cands[i] = append(cands[i], j)
+				}
+				// several variables of one type: the initialiser decides
+				if m.Kind == "var" && len(cands[i]) > 1 && m.Init != "" {
+					var same []int
+					for _, j := range cands[i] {
+						if extra[j].Init == m.Init {
+							same = append(same, j)
+						}
+					}
+					cands[i] = same
 				}
 				// several fields of one type: the position decides
 				if m.Kind == "field" && len(cands[i]) > 1 {
